@@ -11,7 +11,7 @@ from ..runner import Sub, Violation, must, require
 from pycaption import SCCReader, SCCWriter
 
 PROPERTY = "C17"
-RULE = ("caption sets of 1-5 captions, 1-4 lines each of 1-80 characters over the 95 basic "
+RULE = ("caption sets of 1-5 captions, 1-4 lines each (a line may be given as two adjacent text nodes cut at any character) of 1-80 characters over the 95 basic "
         "CEA-608 codes (words of 1-40 characters, hyphenated words, single spaces); start of "
         "each caption = end of the previous one + transmission time of the caption (measured by "
         "a dry run of the writer on that caption alone) + slack in {0..5, 30, 300} frames; the "
@@ -82,7 +82,8 @@ def set_strategy(tier):
                 lines[k] = lines[k] + draw(st.sampled_from([" ", "  "]))
             caps.append({"lines": lines, "dur": draw(st.integers(20, 200)),
                          "slack": draw(st.sampled_from([0, 1, 2, 3, 4, 5, 30, 300])),
-                         "sub": draw(st.integers(0, 33000))})
+                         "sub": draw(st.integers(0, 33000)),
+                         "split": draw(st.one_of(st.none(), st.none(), st.none(), st.integers(0, 600)))})
         if draw(st.integers(0, 19)) == 0:
             # a caption that fills the screen: 3 lines of four 19-letter words and one of three
             # wrap to exactly 15 rows
@@ -108,11 +109,18 @@ def set_strategy(tier):
     return build()
 
 
-def _model_caption(lines, start, end):
+def _model_caption(lines, start, end, split=None):
     nodes = []
     for i, ln in enumerate(lines):
         if i:
             nodes.append({"br": 1})
+        if split is not None and i == split % len(lines) and len(ln) >= 2:
+            # one line given as two adjacent text nodes (the shape readers return around inline
+            # spans), cut at any character
+            pos = 1 + (split // 7) % (len(ln) - 1)
+            nodes.append({"t": ln[:pos]})
+            nodes.append({"t": ln[pos:]})
+            continue
         nodes.append({"t": ln})
     return {"start": start, "end": end, "nodes": nodes, "style": {}, "layout": None}
 
@@ -126,7 +134,7 @@ def build_set(case):
     w = SCCWriter()
     needs = []
     for c in case["caps"]:
-        probe = model.cue_to_py(_model_caption(c["lines"], 0, 1))
+        probe = model.cue_to_py(_model_caption(c["lines"], 0, 1, c.get("split")))
         needs.append((len(w._text_to_code(probe)) // 5 + 8) * FRAME)
     tight = case.get("tight")
     window = case.get("window")
@@ -161,7 +169,7 @@ def build_set(case):
             target = Fraction(k * 3603600000 - case["hour_edge"])
             if starts[i] + 20 * FRAME < target < starts[i] + 120 * 10 ** 6:
                 end = target
-        cues.append(_model_caption(c["lines"], int(starts[i]), int(end)))
+        cues.append(_model_caption(c["lines"], int(starts[i]), int(end), c.get("split")))
     return {"langs": [{"code": "en-US", "layout": None, "cues": cues}], "styles": {}, "layout": None}
 
 
